@@ -1,9 +1,14 @@
 (* C09 model driver.
    payload tokens: @tag | T<bodyhex>:<type>,<id>,<namehex>,<bufhex> (RpcMessage decode table)
                  | Q<reqhex>:<replyhex> (valid EchoRequest buffers and the EchoReply the service gives)
-                 | c<hex> chunk | m call | z jam (every later send fails) | q<N> set sequence number *)
+                 | A  the service keeps Echo/FailedEcho requests and completes them on k ops
+                 | 2  two-channel mode: client channel A and server channel B back to back
+                 | c<hex> chunk | m[efgtd] call (Echo, FailedEcho, GetPlugins, Stream*, StreamDmxData*; * = streaming)
+                 | k<q>R / k<q>F  the service completes request number q (reply "r" / failure "Error")
+                 | z jam (every later send fails) | q<N> set sequence number *)
 let decode_tbl : (string, msg) Hashtbl.t = Hashtbl.create 16
 let req_tbl : (string, string) Hashtbl.t = Hashtbl.create 16
+let async = ref false
 
 let decode (b : n list) : msg option = Hashtbl.find_opt decode_tbl (hex_of_bytes b)
 let method_kind (nm : n list) : n =
@@ -11,60 +16,121 @@ let method_kind (nm : n list) : n =
   | "4563686f" (* Echo *) | "4661696c65644563686f" (* FailedEcho *) -> n_of_int 1
   | "53747265616d" (* Stream *) -> n_of_int 2
   | _ -> N0
+let no_methods (_ : n list) : n = N0
 let req_ok (b : n list) : bool = Hashtbl.mem req_tbl (hex_of_bytes b)
-let service (nm : n list) (req : n list) : sres =
+let service (nm : n list) (req : n list) : sres option =
   match hex_of_bytes nm with
-  | "4661696c65644563686f" -> SFail (bytes_of_hex "4572726f72") (* "Error" *)
-  | "53747265616d" -> SReply []   (* Stream called through a plain REQUEST: empty reply message *)
-  | _ -> SReply (bytes_of_hex (try Hashtbl.find req_tbl (hex_of_bytes req) with Not_found -> "-"))
-let call_name = bytes_of_hex "4563686f"
-let call_req = bytes_of_hex "0a0178"
+  | "53747265616d" -> Some (SReply [])   (* Stream called through a plain REQUEST: empty reply message *)
+  | _ when !async -> None
+  | "4661696c65644563686f" -> Some (SFail (bytes_of_hex "4572726f72")) (* "Error" *)
+  | _ -> Some (SReply (bytes_of_hex (try Hashtbl.find req_tbl (hex_of_bytes req) with Not_found -> "-")))
 
 let msg_s (m : msg) =
   Printf.sprintf "%d:%s:%s:%s" (int_of_n m.m_type) (string_of_n m.m_id) (hex_of_bytes m.m_name) (hex_of_bytes m.m_buf)
 
+(* two-channel mode: the driver's own wire encoding of a message (only its decoding matters) *)
+let encode (m : msg) : n list =
+  let s = msg_s m in
+  let body = List.init (String.length s) (fun i -> n_of_int (Char.code s.[i])) in
+  Hashtbl.replace decode_tbl (hex_of_bytes body) m;
+  let l = String.length s in
+  [n_of_int (l land 255); n_of_int ((l lsr 8) land 255); n_of_int ((l lsr 16) land 255); n_of_int 16] @ body
+
+type chan = { mutable f : frame; mutable r : rpc; counts : int array; mutable nclose : int;
+              mutable hazard : string; mk : n list -> n }
+
+let new_chan mk = { f = init_frame; r = init_rpc; counts = Array.make 7 0; nclose = 0; hazard = ""; mk = mk }
+
+(* run one op on a channel; returns (spec string, internal string, messages sent) *)
+let do_op (c : chan) (o : op) (show_sent : bool) : string * string * msg list =
+  let ((f', r'), evs) = step decode c.mk req_ok service c.f c.r o in
+  c.f <- f'; c.r <- r';
+  let dn = Buffer.create 32 and sn = Buffer.create 32 and sv = Buffer.create 32 in
+  let sent = ref [] in
+  List.iter (fun e ->
+    if not (write_ok e) then c.hazard <- "bad-write";
+    if oob e then c.hazard <- "OOB";
+    match e with
+    | EvOutOfFuel -> c.hazard <- "OutOfFuel"
+    | EvDispatch m ->
+      c.counts.(0) <- c.counts.(0) + 1;
+      (match int_of_n m.m_type with
+       | 1 -> c.counts.(1) <- c.counts.(1) + 1 | 2 -> c.counts.(2) <- c.counts.(2) + 1
+       | 3 -> c.counts.(3) <- c.counts.(3) + 1 | 4 -> c.counts.(4) <- c.counts.(4) + 1
+       | 5 -> c.counts.(5) <- c.counts.(5) + 1 | 10 -> c.counts.(6) <- c.counts.(6) + 1 | _ -> ())
+    | EvDone (k, OReply b) -> Buffer.add_string dn (Printf.sprintf "|D%d:R:%s" (int_of_n k) (hex_of_bytes b))
+    | EvDone (k, OFailed t) -> Buffer.add_string dn (Printf.sprintf "|D%d:F:%s" (int_of_n k) (hex_of_bytes t))
+    | EvSend m -> sent := m :: !sent; if show_sent then Buffer.add_string sn ("|S" ^ msg_s m)
+    | EvService (nm, rq) -> Buffer.add_string sv (Printf.sprintf "|V%s:%s" (hex_of_bytes nm) (hex_of_bytes rq))
+    | EvChanClose -> c.nclose <- c.nclose + 1
+    | _ -> ()) evs;
+  (Buffer.contents dn ^ Buffer.contents sn ^ Buffer.contents sv, "", List.rev !sent)
+
+let state_s (c : chan) =
+  Printf.sprintf "x%s%s|rx%s" (bool01 c.f.closed) (bool01 c.r.dead)
+    (String.concat "/" (Array.to_list (Array.map string_of_int c.counts)))
+let internal_s (c : chan) =
+  Printf.sprintf "e%dc%db%da%d" (int_of_n c.f.expected) (int_of_n c.f.current) (int_of_n c.f.bufsz) (int_of_n c.f.alloc)
+
+let call_of_code (code : string) : bool * n list * n list =
+  match code with
+  | "" | "e" -> (false, bytes_of_hex "4563686f", bytes_of_hex "0a0178")
+  | "f" -> (false, bytes_of_hex "4661696c65644563686f", bytes_of_hex "0a0178")
+  | "t" -> (true, bytes_of_hex "53747265616d", bytes_of_hex "0a0178")
+  | "g" -> (false, bytes_of_hex "476574506c7567696e73", [])                      (* GetPlugins *)
+  | "d" -> (true, bytes_of_hex "53747265616d446d7844617461", bytes_of_hex "0801120164")  (* StreamDmxData *)
+  | _ -> failwith "bad call code"
+
 let handle (p : string) : string =
   Hashtbl.reset decode_tbl; Hashtbl.reset req_tbl;
-  let f = ref init_frame and r = ref init_rpc in
+  Hashtbl.replace req_tbl "0a0178" "0a0178";
+  async := false;
+  let toks = split p in
+  let two = List.mem "2" toks in
+  let a = new_chan (if two then no_methods else method_kind) in
+  let b = new_chan method_kind in
   let jam = ref false in
   let tag = ref "?" in
   let out = Buffer.create 256 in
   let idx = ref 0 in
-  let counts = Array.make 7 0 in   (* total, request, response, cancelled, failed, not-implemented, stream *)
-  let hazard = ref "" in
-  let nclose = ref 0 in
-  let do_op (o : op) =
-    let ((f', r'), evs) = step decode method_kind req_ok service call_name call_req !f !r o in
-    f := f'; r := r';
-    let dn = Buffer.create 32 and sn = Buffer.create 32 and sv = Buffer.create 32 in
-    List.iter (fun e ->
-      if not (write_ok e) then hazard := "bad-write";
-      if oob e then hazard := "OOB";
-      match e with
-      | EvOutOfFuel -> hazard := "OutOfFuel"
-      | EvDispatch m ->
-        counts.(0) <- counts.(0) + 1;
-        (match int_of_n m.m_type with
-         | 1 -> counts.(1) <- counts.(1) + 1 | 2 -> counts.(2) <- counts.(2) + 1
-         | 3 -> counts.(3) <- counts.(3) + 1 | 4 -> counts.(4) <- counts.(4) + 1
-         | 5 -> counts.(5) <- counts.(5) + 1 | 10 -> counts.(6) <- counts.(6) + 1 | _ -> ())
-      | EvDone (k, OReply b) -> Buffer.add_string dn (Printf.sprintf "|D%d:R:%s" (int_of_n k) (hex_of_bytes b))
-      | EvDone (k, OFailed t) -> Buffer.add_string dn (Printf.sprintf "|D%d:F:%s" (int_of_n k) (hex_of_bytes t))
-      | EvSend m -> Buffer.add_string sn ("|S" ^ msg_s m)
-      | EvService (nm, rq) -> Buffer.add_string sv (Printf.sprintf "|V%s:%s" (hex_of_bytes nm) (hex_of_bytes rq))
-      | EvChanClose -> incr nclose
-      | _ -> ()) evs;
-    Buffer.add_string out (Printf.sprintf "o%d=x%s%s|rx%s%s%s%s|H%d;i%d=e%dc%db%da%d;" !idx
-      (bool01 !f.closed) (bool01 !r.dead)
-      (String.concat "/" (Array.to_list (Array.map string_of_int counts)))
-      (Buffer.contents dn) (Buffer.contents sn) (Buffer.contents sv) !nclose
-      !idx (int_of_n !f.expected) (int_of_n !f.current) (int_of_n !f.bufsz) (int_of_n !f.alloc));
+  let complete_op rest =
+    let n = String.length rest in
+    let q = n_of_string (String.sub rest 0 (n - 1)) in
+    let res = if rest.[n - 1] = 'F' then SFail (bytes_of_hex "4572726f72") else SReply (bytes_of_hex "0a0172") in
+    OpComplete (q, res, not !jam) in
+  let emit1 (ev : string) =
+    Buffer.add_string out (Printf.sprintf "o%d=%s%s|H%d;i%d=%s;" !idx (state_s a) ev a.nclose !idx (internal_s a));
+    incr idx in
+  (* two-channel: deliver everything in flight, B first, until quiet *)
+  let pump (to_b : msg list) (to_a : msg list) (eva : Buffer.t) (evb : Buffer.t) =
+    let to_b = ref to_b and to_a = ref to_a in
+    let guard = ref 0 in
+    while (!to_b <> [] || !to_a <> []) && !guard < 1000 do
+      incr guard;
+      if !to_b <> [] then begin
+        let bytes = List.concat (List.map encode !to_b) in
+        to_b := [];
+        let (e, _, s) = do_op b (OpChunk (bytes, true)) false in
+        Buffer.add_string evb e; to_a := !to_a @ s
+      end;
+      if !to_a <> [] then begin
+        let bytes = List.concat (List.map encode !to_a) in
+        to_a := [];
+        let (e, _, s) = do_op a (OpChunk (bytes, true)) false in
+        Buffer.add_string eva e; to_b := !to_b @ s
+      end
+    done in
+  let emit2 (eva : Buffer.t) (evb : Buffer.t) =
+    Buffer.add_string out (Printf.sprintf "o%d=%s%s|H%d#%s%s|H%d;" !idx (state_s a) (Buffer.contents eva) a.nclose
+      (state_s b) (Buffer.contents evb) b.nclose);
     incr idx in
   List.iter (fun tok ->
     if tok <> "" then begin
       let rest = String.sub tok 1 (String.length tok - 1) in
       match tok.[0] with
       | '@' -> tag := rest
+      | '2' -> ()
+      | 'A' -> async := true
       | 'T' ->
         (match String.split_on_char ':' rest with
          | [body; spec] ->
@@ -78,14 +144,34 @@ let handle (p : string) : string =
         (match String.split_on_char ':' rest with
          | [rq; rp] -> Hashtbl.replace req_tbl rq rp
          | _ -> failwith "bad Q")
-      | 'c' -> do_op (OpChunk (bytes_of_hex rest, not !jam))
-      | 'm' -> do_op (OpCall (not !jam))
       | 'z' -> jam := true
-      | 'q' -> r := { !r with seq = n_of_string rest }
+      | 'q' -> a.r <- { a.r with seq = n_of_string rest }
+      | 'c' | 'm' | 'k' ->
+        if two then begin
+          let eva = Buffer.create 32 and evb = Buffer.create 32 in
+          (match tok.[0] with
+           | 'm' ->
+             let (st, nm, rq) = call_of_code rest in
+             let (e, _, s) = do_op a (OpCall (st, nm, rq, true)) false in
+             Buffer.add_string eva e; pump s [] eva evb
+           | 'k' ->
+             let (e, _, s) = do_op b (complete_op rest) false in
+             Buffer.add_string evb e; pump [] s eva evb
+           | _ -> failwith "chunk in two-channel mode");
+          emit2 eva evb
+        end else begin
+          let o = match tok.[0] with
+            | 'c' -> OpChunk (bytes_of_hex rest, not !jam)
+            | 'm' -> let (st, nm, rq) = call_of_code rest in OpCall (st, nm, rq, not !jam)
+            | _ -> complete_op rest in
+          let (e, _, _) = do_op a o true in
+          emit1 e
+        end
       | _ -> failwith "bad token"
-    end) (split p);
-  let fin = if !r.dead then "dead" else if !f.closed then "closed" else if int_of_n !f.expected <> 0 then "midbody" else "open" in
-  Buffer.add_string out (Printf.sprintf "hazard=%s;class=%s:%s" (if !hazard = "" then "none" else !hazard) !tag fin);
+    end) toks;
+  let fin (c : chan) = if c.r.dead then "dead" else if c.f.closed then "closed" else if int_of_n c.f.expected <> 0 then "midbody" else "open" in
+  let hz = if a.hazard <> "" then a.hazard else if b.hazard <> "" then b.hazard else "none" in
+  Buffer.add_string out (Printf.sprintf "hazard=%s;class=%s:%s" hz !tag (fin a));
   Buffer.contents out
 
 let () = vh_run handle
